@@ -4,6 +4,8 @@ import LettreVerif.Props.C13
 #print axioms LV.C13.relaxed_header_canon_agrees
 #print axioms LV.C13.relaxed_value_fold_invariant
 #print axioms LV.C13.signed_fields_input_agrees
+#print axioms LV.C13.sig_field_canon_agrees
+#print axioms LV.C13.header_input_agrees_relaxed
 #print axioms LV.C13.sign_keeps_body_and_part_headers
 #print axioms LV.C13.sign_adds_one_field
 #print axioms LV.C13.h_lists_signed_fields
